@@ -95,6 +95,32 @@ func escapeQuotes(s string) string {
 	return strings.NewReplacer("\\", "\\\\", `"`, "\\\"").Replace(s)
 }
 
+// readHead fills buf from the beginning of an upload source. Only io.EOF is the end of the source
+// (a file shorter than buf) and is not reported. Every other error, io.ErrUnexpectedEOF included, is
+// the source's own failure. A source that keeps returning no bytes and no error is given up on.
+func readHead(r io.Reader, buf []byte) (int, error) {
+	const maxEmptyReads = 100
+	n, empty := 0, 0
+	for n < len(buf) {
+		nn, err := r.Read(buf[n:])
+		n += nn
+		if err == io.EOF {
+			return n, nil
+		}
+		if err != nil {
+			return n, err
+		}
+		if nn > 0 {
+			empty = 0
+			continue
+		}
+		if empty++; empty >= maxEmptyReads {
+			return n, io.ErrNoProgress
+		}
+	}
+	return n, nil
+}
+
 func logClose(err error, pw *io.PipeWriter) {
 	log.Println(err)
 	closeErr := pw.CloseWithError(err)
@@ -188,8 +214,8 @@ func (r *request) buildHTTP(mediaType, basePath string, producers map[string]run
 						// Need to read the data so that we can detect the content type
 						const contentTypeBufferSize = 512
 						buf := make([]byte, contentTypeBufferSize)
-						size, err := io.ReadFull(fi, buf)
-						if err != nil && err != io.EOF && err != io.ErrUnexpectedEOF {
+						size, err := readHead(fi, buf)
+						if err != nil {
 							logClose(err, pw)
 							return
 						}
